@@ -400,7 +400,7 @@ pub fn systematic() -> Vec<Num> {
             }
         }
     }
-    for whole in ["", "0", "7", "00", "012", "1234567890"] {
+    for whole in ["0", "7", "00", "012", "1234567890", ""] {
         for frac in [None, Some(""), Some("0"), Some("5"), Some("25"), Some("000")] {
             if whole.is_empty() && frac.map_or(true, |f| f.is_empty()) {
                 continue;
